@@ -551,15 +551,20 @@ func c07Machine(t *rapid.T, timer bool, rec *verifkit.Rec) {
 			pre = append(pre, preStep{0, "publish"})
 		}
 		steps += len(pre)
+		var stickWho *simClient
+		var stickStream *c07Stream
 		for i := 0; i < steps; i++ {
 			forced := i < len(pre)
 			var sc *simClient
 			if forced {
 				sc = w.s.cs[pre[i].who]
+			} else if stickWho != nil {
+				sc = stickWho
 			} else {
 				sc = w.s.cs[rapid.IntRange(0, len(w.s.cs)-1).Draw(t, "who")]
 			}
 			if sc.closed {
+				stickWho, stickStream = nil, nil
 				continue
 			}
 			sub := w.subs[sc]
@@ -586,6 +591,13 @@ func c07Machine(t *rapid.T, timer bool, rec *verifkit.Rec) {
 			var op string
 			if forced {
 				op = pre[i].op
+			} else if stickWho != nil {
+				// the publisher touches a stream and closes it at once: the close overtakes the stream's own, still delayed, announcement
+				op = "close"
+				if stickStream.ended || w.where[sc] == "" {
+					stickWho, stickStream = nil, nil
+					continue
+				}
 			} else {
 				op = rapid.SampledFrom(ops).Draw(t, "op")
 			}
@@ -825,6 +837,9 @@ func c07Machine(t *rapid.T, timer bool, rec *verifkit.Rec) {
 				for _, o := range members(st.group) {
 					w.modelPush(w.subs[o], st)
 				}
+				if timer && !forced && i < steps-1 && rapid.Bool().Draw(t, "thenClosesItAtOnce") {
+					stickWho, stickStream = sc, st
+				}
 			case "raceMove":
 				// the publisher pushes a stream; before the subscriber's loop looks at the queued action, the subscriber
 				// leaves and joins the other group (its loop may pick the messages first): the stale push must be ignored
@@ -872,7 +887,13 @@ func c07Machine(t *rapid.T, timer bool, rec *verifkit.Rec) {
 				}
 				w.moves++
 			case "close":
-				st := myStreams[rapid.IntRange(0, len(myStreams)-1).Draw(t, "which")]
+				var st *c07Stream
+				if stickWho != nil {
+					st = stickStream
+					stickWho, stickStream = nil, nil
+				} else {
+					st = myStreams[rapid.IntRange(0, len(myStreams)-1).Draw(t, "which")]
+				}
 				w.logf("%s closes %s", sc.id, st.id)
 				w.endStream(st)
 				for _, o := range w.subs {
@@ -920,7 +941,7 @@ func c07Machine(t *rapid.T, timer bool, rec *verifkit.Rec) {
 					racedPending++
 				}
 				// in a burst: keep going without waiting for the timers (but always flush at the end)
-				if !forced && i < steps-1 && rapid.IntRange(0, 2).Draw(t, "burst") != 0 {
+				if !forced && i < steps-1 && (stickWho != nil || rapid.IntRange(0, 2).Draw(t, "burst") != 0) {
 					w.s.pump()
 					for _, o := range w.s.cs {
 						w.handle(w.subs[o])
